@@ -29,7 +29,7 @@ type genVal struct {
 	committees []uint64
 }
 
-func newChain(gvs []genVal, scoped bool, maxSlash, dsPct, unstaking uint64) (*chainFSM, error) {
+func newChain(gvs []genVal, scoped bool, maxSlash, dsPct, unstaking, minStake uint64) (*chainFSM, error) {
 	p := fsm.DefaultParams()
 	if scoped {
 		p.Consensus.ProtocolVersion = fsm.NewProtocolVersion(0, 2)
@@ -39,6 +39,7 @@ func newChain(gvs []genVal, scoped bool, maxSlash, dsPct, unstaking uint64) (*ch
 	p.Validator.MaxSlashPerCommittee = maxSlash
 	p.Validator.DoubleSignSlashPercentage = dsPct
 	p.Validator.UnstakingBlocks = unstaking
+	p.Validator.MinimumStakeForValidators = minStake
 	p.Validator.NonSignWindow = 1000000
 	p.Validator.MaxNonSign = 1000000
 	gs := &fsm.GenesisState{Params: p}
@@ -112,6 +113,11 @@ func (c *chainFSM) stake(addr []byte) (uint64, []uint64, bool) {
 	return v.StakedAmount, v.Committees, true
 }
 
+func (c *chainFSM) unstaking(addr []byte) bool {
+	v, err := c.sm.GetValidator(crypto.NewAddressFromBytes(addr))
+	return err == nil && v != nil && v.UnstakingHeight != 0
+}
+
 // minEvidenceAt answers LoadMinimumEvidenceHeight(rootChainId, h) the way the node is wired:
 // controller -> RCManager -> rpc client MinimumEvidenceHeight(h) -> server heightParams ->
 // FSM.TimeMachine(h) -> state.LoadMinimumEvidenceHeight()
@@ -147,6 +153,10 @@ type ledgerCase struct {
 	blockStart map[string]uint64          // stake at the beginning of the current block
 	slashedBy  map[string]map[uint64]bool // addr -> committees that slashed it in this block
 	nslashes   map[string]int             // addr -> number of slash applications in this block
+	minStake   uint64
+	startUnst  map[string]bool              // unstaking at the beginning of the block
+	startMem   map[string]map[uint64]bool   // committee membership at the beginning of the block
+	pctBy      map[string]map[uint64]uint64 // addr -> committee -> sum of the percentages it asked for in this block
 	heights    map[uint64]bool
 }
 
@@ -178,7 +188,11 @@ func (lc *ledgerCase) dump() {
 		a := drv.Hex(v.addr)
 		addrs = append(addrs, a)
 		if st, cs, ok := lc.c.stake(v.addr); ok {
-			vout = append(vout, fmt.Sprintf("%s:%d:%s", a, st, u64s(cs)))
+			u := "s"
+			if lc.c.unstaking(v.addr) {
+				u = "u"
+			}
+			vout = append(vout, fmt.Sprintf("%s:%d:%s:%s", a, st, u64s(cs), u))
 		} else {
 			vout = append(vout, a+":-")
 		}
@@ -213,16 +227,28 @@ func (lc *ledgerCase) beginBlock() {
 	lc.blockStart = map[string]uint64{}
 	lc.slashedBy = map[string]map[uint64]bool{}
 	lc.nslashes = map[string]int{}
+	lc.startUnst = map[string]bool{}
+	lc.startMem = map[string]map[uint64]bool{}
+	lc.pctBy = map[string]map[uint64]uint64{}
 	for _, v := range lc.vs {
-		st, _, _ := lc.c.stake(v.addr)
+		st, cs, _ := lc.c.stake(v.addr)
 		lc.blockStart[string(v.addr)] = st
+		lc.startUnst[string(v.addr)] = lc.c.unstaking(v.addr)
+		lc.startMem[string(v.addr)] = map[uint64]bool{}
+		for _, ch := range cs {
+			lc.startMem[string(v.addr)][ch] = true
+		}
 	}
 }
 
 // noteSlash: the harness asked the real code to slash addr on behalf of committee ch (whether the code
 // then really slashes is the code's business)
-func (lc *ledgerCase) noteSlash(addr []byte, ch uint64) {
+func (lc *ledgerCase) noteSlash(addr []byte, ch, pct uint64) {
 	k := string(addr)
+	if lc.pctBy[k] == nil {
+		lc.pctBy[k] = map[uint64]uint64{}
+	}
+	lc.pctBy[k][ch] += pct
 	if lc.slashedBy[k] == nil {
 		lc.slashedBy[k] = map[uint64]bool{}
 	}
@@ -250,14 +276,45 @@ func (lc *ledgerCase) endBlock() {
 		}
 		if lhs.Cmp(rhs) < 0 {
 			sig := "C14:slash-cap-exceeded"
-			if !lc.scoped {
+			forced := !lc.startUnst[k] && lc.c.unstaking(v.addr)
+			switch {
+			case !lc.scoped:
 				sig = "C14:slash-cap-not-enforced-protocol-v1"
+			case forced:
+				// the validator was force-unstaked in this block (a slash left it below the minimum stake)
+				sig = "C14:slash-cap-exceeded:force-unstake-path"
 			}
-			fail(lc.o, sig, fmt.Sprintf("validator %s: stake %d -> %d within one block, slashed by %d committee(s) in %d application(s); cap %d%% per committee", drv.Hex(v.addr)[:12], lc.blockStart[k], end, m, lc.nslashes[k], lc.maxSlash),
+			fail(lc.o, sig, fmt.Sprintf("validator %s: stake %d -> %d within one block, slashed by %d committee(s) in %d application(s); cap %d%% per committee; minimum stake %d, force-unstaked in this block: %v", drv.Hex(v.addr)[:12], lc.blockStart[k], end, m, lc.nslashes[k], lc.maxSlash, lc.minStake, forced),
 				map[string]any{"scoped": lc.scoped, "history": lc.hist})
 			lc.o.Count("oracle:cap-exceeded")
 		} else {
 			lc.o.Count("oracle:cap-held")
+		}
+		// the tracker-based ejection: a committee that asked for at least the cap in this block of a validator that
+		// was its member at the start has either taken the whole stake or the validator has left the committee
+		if lc.scoped {
+			_, cs, exists := lc.c.stake(v.addr)
+			for ch, sum := range lc.pctBy[k] {
+				if !lc.startMem[k][ch] || sum < lc.maxSlash || !exists {
+					continue
+				}
+				still := false
+				for _, c := range cs {
+					if c == ch {
+						still = true
+					}
+				}
+				if still {
+					sig := "C14:cap-reached-without-ejection"
+					if !lc.startUnst[k] && lc.c.unstaking(v.addr) {
+						sig += ":force-unstake-path"
+					}
+					fail(lc.o, sig, fmt.Sprintf("validator %s: committee %d asked for %d%% >= cap %d%% in one block and the validator is still its member", drv.Hex(v.addr)[:12], ch, sum, lc.maxSlash),
+						map[string]any{"history": lc.hist})
+				} else {
+					lc.o.Count("oracle:ejected-at-cap")
+				}
+			}
 		}
 	}
 	lc.c.endBlock()
@@ -359,7 +416,7 @@ func (lc *ledgerCase) hds(ch uint64, in []dsIn, nilRecipients, viaByzantine bool
 				if lc.accepted[k] > 1 {
 					fail(lc.o, "C14:double-slash-same-height", "the pair "+k+" was accepted for slashing "+fmt.Sprint(lc.accepted[k])+" times", map[string]any{"history": lc.hist})
 				}
-				lc.noteSlash(pk.Address().Bytes(), ch)
+				lc.noteSlash(pk.Address().Bytes(), ch, lc.dsPct)
 			}
 		}
 	}
@@ -383,7 +440,7 @@ func (lc *ledgerCase) slash(ch, pct uint64, addrs [][]byte) {
 	lc.o.Count("slash:" + res)
 	if res == "ok" {
 		for _, a := range addrs {
-			lc.noteSlash(a, ch)
+			lc.noteSlash(a, ch, pct)
 		}
 	}
 }
